@@ -1286,7 +1286,7 @@ theorem keysOK_gov (s : State) (c : ParamChange) (hk : KeysOK s) : KeysOK ((gov 
     simp only [Option.getD]
     refine hk.of_recs ?_
     unfold gov at hg
-    cases c <;> simp only [] at hg <;> (try split at hg) <;> (try split at hg) <;>
+    cases c <;> simp only [] at hg <;> (try split at hg) <;>
       first
         | (simp only [Option.some.injEq] at hg; rw [← hg]; rfl)
         | (simp only [reduceCtorEq] at hg)
